@@ -176,7 +176,7 @@ def half_int_mat(rng, n, amp=2, dens=0.7):
                       for _ in range(n)] for _ in range(n)])
 
 
-def gen_system(rng, kind, dims):
+def gen_system(rng, kind, dims, permute=None):
     """returns dict with H2 (=2H), C2 (list of 2*c) as integer arrays"""
     n = int(np.prod(dims))
     if kind == "generic":
@@ -214,11 +214,68 @@ def gen_system(rng, kind, dims):
         # pumped to the top level: rho_ss = |n-1><n-1|, first population zero
         H2 = 2 * np.diag([complex(rng.randint(-2, 2)) for _ in range(n)])
         C2 = [np.diag([complex(2)] * (n - 1), -1)]
+    elif kind == "sparse_ladder":
+        # zero-temperature ladder (up or down, optional two-level skips): the
+        # absorbing state is an end of the chain; the basis permutation below
+        # puts it at an arbitrary position.  Many structurally zero entries.
+        H2 = 2 * np.diag([complex(rng.randint(-2, 2)) for _ in range(n)]) \
+            if rng.random() < 0.6 else np.zeros((n, n), complex)
+        c = np.zeros((n, n), complex)
+        up = rng.random() < 0.5
+        for k in range(n - 1):
+            a, b = (k + 1, k) if up else (k, k + 1)
+            c[a, b] = 2 * rng.randint(1, 2)
+        C2 = [c]
+        if n >= 3 and rng.random() < 0.4:
+            c2 = np.zeros((n, n), complex)
+            k = rng.randint(0, n - 3)
+            a, b = (k + 2, k) if up else (k, k + 2)
+            c2[a, b] = 2
+            C2.append(c2)
+    elif kind == "sparse_block":
+        # a chain feeding a block with coherent dynamics; nothing flows back
+        m = max(2, n - rng.randint(1, max(1, n - 2)))      # block size
+        m = min(m, n - 1)
+        H2 = np.zeros((n, n), complex)
+        H2[n - m:, n - m:] = half_int_herm(rng, m)
+        C2 = []
+        for k in range(n - m):
+            c = np.zeros((n, n), complex)
+            c[k + 1 if k + 1 < n - m or rng.random() < 0.5 else rng.randint(n - m, n - 1), k] = 2
+            C2.append(c)
+        c = np.zeros((n, n), complex)
+        c[n - m:, n - m:] = half_int_mat(rng, m, dens=0.9)
+        C2.append(c)
+    elif kind == "sparse_tensor":
+        # tensor product of two structurally sparse (or one generic) factors
+        assert len(dims) == 2
+        parts = []
+        for d in dims:
+            sub_kind = rng.choice(["sparse_ladder", "sparse_ladder", "rates"]) if d > 2 \
+                else rng.choice(["sparse_ladder", "sparse_ladder", "generic"])
+            ps = gen_system(rng, sub_kind, [d], permute=True)
+            Hs = np.array([[complex(a, b) for a, b in row] for row in ps["H2"]])
+            Cs = [np.array([[complex(a, b) for a, b in row] for row in c]) for c in ps["C2"]]
+            parts.append((Hs, Cs))
+        (H1, C1), (Hb, Cb) = parts
+        I1, Ib = np.eye(dims[0]), np.eye(dims[1])
+        H2 = np.kron(H1, Ib) + np.kron(I1, Hb)
+        C2 = [np.kron(c, Ib) for c in C1] + [np.kron(I1, c) for c in Cb]
     else:
         raise ValueError(kind)
+    if permute or (permute is None and (kind.startswith("sparse_l") or kind.startswith("sparse_b")
+                                        or rng.random() < 0.25)):
+        if len(dims) == 1:
+            pi = list(range(n))
+            rng.shuffle(pi)
+            P = np.zeros((n, n))
+            for k in range(n):
+                P[pi[k], k] = 1
+            H2 = P @ H2 @ P.T
+            C2 = [P @ c @ P.T for c in C2]
     return {"kind": kind, "dims": list(dims),
-            "H2": [[[int(z.real), int(z.imag)] for z in row] for row in H2],
-            "C2": [[[[int(z.real), int(z.imag)] for z in row] for row in c] for c in C2]}
+            "H2": [[[int(round(z.real)), int(round(z.imag))] for z in row] for row in H2],
+            "C2": [[[[int(round(z.real)), int(round(z.imag))] for z in row] for row in c] for c in C2]}
 
 
 def sys_arrays(s):
@@ -612,6 +669,12 @@ def oracle_configs(quick, rng):
              ("direct", "lgmres", {"use_rcm": True}),
              ("direct", "bicgstab", {"use_precond": True, "use_wbm": True}),
              ("direct-spsolve", None, {}),
+             ("direct", "spsolve", {"use_wbm": True}),
+             ("direct", None, {"use_wbm": True, "weight": 2.0}),
+             ("direct", None, {"use_wbm": True, "use_rcm": True, "sparse": True}),
+             ("iterative", "lgmres", {"use_wbm": True, "use_precond": True}),
+             ("direct", "gmres", {"use_wbm": True, "use_rcm": True, "use_precond": True}),
+             ("iterative-gmres", None, {"use_wbm": True, "use_precond": True}),
              ("eigen", None, {}), ("eigen", None, {"sparse": False}),
              ("svd", None, {}),
              ("power", None, {}), ("power", "solve", {}), ("power", "spsolve", {"use_rcm": True}),
@@ -707,9 +770,13 @@ def oracle_system(ctx, s, cfgs, rng, stats, fmts):
                       "qutip.liouvillian differs from the Kronecker formula (C07 territory)",
                       {"system": s})
     rho00zero = abs(rho_ex[0, 0]) < 1e-12
+    if matching_max_cycle(s) >= 3:
+        stats["matching_cycle_ge_3_systems"] = stats.get("matching_cycle_ge_3_systems", 0) + 1
     for cfg in cfgs:
         method, solver, kw = cfg
         fmt = rng.choice(fmts)
+        if ("use_wbm" in kw or "use_rcm" in kw) and rng.random() < 0.8:
+            fmt = "csr"
         as_l = rng.choice(["H", "H", "L", "L+c"]) if len(s["C2"]) > 1 else rng.choice(["H", "L"])
         seed = rng.randrange(1 << 30)
         key = {"method": method, "solver": solver, "opts": sorted(kw.keys())}
@@ -768,6 +835,91 @@ def oracle_system(ctx, s, cfgs, rng, stats, fmts):
                            "seed": seed, "symptoms": bad,
                            "max_dev": float(np.abs(M - rho_ex).max())})
     return True
+
+
+def matching_max_cycle(s):
+    """length of the longest cycle of the row matching SciPy finds for the
+    weighted generator of system s (0 when the matching is not perfect).
+    Used only to SELECT systems on which use_wbm is a non-trivial permutation."""
+    import scipy.sparse as sp
+    import scipy.sparse.csgraph as csg
+    H, C = sys_arrays(s)
+    L = liouvillian_np(H, C)
+    N = L.shape[0]
+    n = int(round(N ** 0.5))
+    w = float(np.mean(np.abs(L[np.abs(L) > 0])))
+    Lw = L.copy()
+    Lw[0, [k * (n + 1) for k in range(n)]] += w
+    m = list(csg.maximum_bipartite_matching(sp.csr_matrix(Lw)))
+    if sorted(m) != list(range(N)):
+        return 0
+    seen, best = set(), 1
+    for j in range(N):
+        k, ln = j, 0
+        while k not in seen:
+            seen.add(k)
+            k = m[k]
+            ln += 1
+        best = max(best, ln)
+    return best
+
+
+SPARSE_KINDS = ["sparse_ladder", "sparse_tensor", "sparse_block", "pump_top", "zero_first"]
+
+
+def gen_sparse_system(rng, big=False):
+    kind = rng.choice(SPARSE_KINDS)
+    if kind == "sparse_tensor":
+        dims = rng.choice([[2, 2], [3, 2], [2, 3]] if big else [[2, 2], [2, 2], [3, 2]])
+    else:
+        dims = [rng.choice([3, 3, 4] if big else [3, 3, 3, 4])]
+    return gen_system(rng, kind, dims)
+
+
+def targeted_search(ctx, site, what, rng, stats):
+    """A correspondence broke at `site` (and `what` names the component that
+    differs): run the property's own oracle on systems and options for which
+    that component is non-trivial."""
+    allc = oracle_configs(False, rng)
+    if site == "corr:steadystate_direct":
+        cfgs = [c for c in allc if c[0].split("-")[0] in ("direct", "iterative")
+                and ("use_wbm" in c[2] or "use_rcm" in c[2] or "weight" in c[2])]
+        cfgs += [("direct", None, {}), ("direct", "spsolve", {})]
+        chosen, others = [], []
+        for _ in range(80):
+            s = gen_sparse_system(rng, big=len(chosen) >= 2)
+            if exact_rho(s) is None:
+                continue
+            if matching_max_cycle(s) >= 3:
+                chosen.append(s)
+            elif len(others) < 2:
+                others.append(s)
+            if len(chosen) >= 4:
+                break
+        stats["targeted_systems_with_matching_cycle_ge_3"] = len(chosen)
+        for s in chosen + others:
+            oracle_system(ctx, s, cfgs, rng, stats, ["csr"])
+    elif site in ("corr:steadystate_eigen", "corr:steadystate_svd", "corr:steadystate_power"):
+        m = site.split("_")[-1]
+        cfgs = [c for c in allc if c[0].split("-")[0] == m]
+        n = 0
+        for _ in range(40):
+            s = gen_sparse_system(rng) if n % 2 == 0 else gen_system(rng, "generic", [3])
+            if oracle_system(ctx, s, cfgs, rng, stats, ["csr", "dense"]):
+                n += 1
+            if n >= 5:
+                break
+    elif site == "corr:pseudo_inverse":
+        n = 0
+        for _ in range(20):
+            s = gen_sparse_system(rng) if n % 2 == 0 else gen_system(rng, "generic", [2])
+            if exact_rho(s) is not None:
+                oracle_pinv(ctx, s, stats, rng)
+                n += 1
+            if n >= 3:
+                break
+    elif site == "corr:heom.steady_state":
+        oracle_heom(ctx, stats, rng, False)
 
 
 def oracle_mesolve(ctx, s, stats):
@@ -1049,8 +1201,24 @@ def run(ctx):
                 sites.add(json.load(open(pth))["site"])
             except Exception:
                 pass
+        searched = set()
         for site, signature, what, detail in deferred:
             hit = [x for x in sites if x.startswith(CORR_TO_ORACLE[site])]
+            if not hit and site not in searched:
+                # nothing found by the general oracle: target the mechanism
+                searched.add(site)
+                ctx.log("correspondence mismatch at %s without a failing input so far: "
+                        "targeted search" % site)
+                try:
+                    targeted_search(ctx, site, what, random.Random(ctx.seed * 31 + 7), stats)
+                except Exception as e:           # the search must not hide the mismatch
+                    ctx.log("targeted search failed: %r" % e)
+                for pth in ctx.violations:
+                    try:
+                        sites.add(json.load(open(pth))["site"])
+                    except Exception:
+                        pass
+                hit = [x for x in sites if x.startswith(CORR_TO_ORACLE[site])]
             detail = dict(detail, oracle_violations_at_same_mechanism=hit)
             real_violation(site, signature, what + (
                 "; the oracle on real runs fails at %s" % hit if hit else
@@ -1076,10 +1244,12 @@ def run(ctx):
     ]
     stats = {k: 0 for k in ["runs", "ok", "skipped_not_unique", "iterative_no_convergence",
                             "power_no_convergence", "propagator_no_convergence", "mesolve",
-                            "pinv_runs", "pinv_ok", "heom", "systems", "power_exactly_singular"]}
+                            "pinv_runs", "pinv_ok", "heom", "systems", "power_exactly_singular",
+                            "matching_cycle_ge_3_systems"]}
 
     def oracle_all(budget_systems, r2):
-        kinds = ["generic", "zero_first", "generic", "rates", "ladder", "pump_top", "zero_first"]
+        kinds = ["sparse_ladder", "generic", "zero_first", "sparse_tensor", "rates", "sparse_block",
+                 "ladder", "pump_top", "generic", "sparse_ladder", "zero_first"]
         dimsl = [[2], [3], [3], [2, 2]]
         cfgs = oracle_configs(quick, r2)
         fmts = ["csr", "csr", "dense", "dia"]
@@ -1087,12 +1257,24 @@ def run(ctx):
         tries = 0
         while done < budget_systems and tries < budget_systems * 6:
             tries += 1
-            kind = kinds[tries % len(kinds)]
+            kind = kinds[(tries - 1) % len(kinds)]
             dims = r2.choice(dimsl)
-            if kind in ("zero_first",) and int(np.prod(dims)) < 3:
+            if kind in ("zero_first", "sparse_ladder", "sparse_block") and int(np.prod(dims)) < 3:
                 dims = [3]
+            if kind in ("sparse_ladder", "sparse_block", "pump_top") and len(dims) > 1:
+                dims = [r2.choice([3, 4])]
+            if kind == "sparse_tensor":
+                dims = r2.choice([[2, 2], [3, 2], [2, 3]] if not quick else [[2, 2], [2, 2], [3, 2]])
             s = gen_system(r2, kind, dims)
-            sub = cfgs if (done < 2 or not quick) else r2.sample(cfgs, 10) + [c for c in cfgs if c[0] == "svd"]
+            if kind == "sparse_ladder":
+                # make use_wbm a non-trivial permutation (matching with a cycle >= 3)
+                for _ in range(40):
+                    if matching_max_cycle(s) >= 3:
+                        break
+                    s = gen_system(r2, kind, dims)
+            # the first systems (one structurally sparse, one generic, one with an empty
+            # first level) see every option combination; later ones a sample
+            sub = cfgs if (done < 3 or not quick) else r2.sample(cfgs, 10) + [c for c in cfgs if c[0] == "svd"]
             if oracle_system(ctx, s, sub, r2, stats, fmts):
                 done += 1
                 stats["systems"] += 1
